@@ -9,7 +9,8 @@ CHECKS = {
     "C10": dict(
         category="model_checking",
         text="Bounded symbolic model checking of the real scheduler: all range geometries (solver variables) for "
-             "every assignment of <=3 (thorough: 4) rewrites to 2 rule groups x {default,0,1} transaction ids; the "
+             "every assignment of <=3 (thorough: 4) rewrites to 2 rule groups x {default,0,1} transaction ids (and {0,1,2} in "
+             "every yield order within one rule); the "
              "statement's clauses (atomic, disjoint, dropped-only-for-a-stated-reason, ignored lines, right-to-left "
              "order) are z3 formulas decided on every path; rollback decided on the real _apply_rewrites with "
              "solver-chosen validity outcomes; every path replayed end to end through processing.fix/chain.",
@@ -39,8 +40,11 @@ CHECKS = {
         text="Bounded symbolic model checking of the real core.literal_value: every expression shape of depth 1 "
              "(~6900) plus a seed-chosen sample of depth 2 (thorough: depth 3 sample) with integer/boolean leaves as "
              "solver variables (all integers, LIA); oracle = Python's own evaluation of the same expression over the "
-             "same proxies; effectful builtins are recording stubs so 'evaluation has effects' is observable.",
-        design_ref="DESIGN.md section 4 / C15",
+             "same proxies; effectful builtins are recording stubs so 'evaluation has effects' is observable. Consumers: "
+             "every comparison of two constants from 16 literal kinds (symbolic ints, floats, NaN, sets, mixed types) in "
+             "seven positions of a closed program through the folding rules and the pipeline, decided by symbolic "
+             "translation validation.",
+        design_ref="DESIGN.md section 4 / C15, 13.1",
         note="Trusted: z3, the proxies (fidelity self-test: 400 expressions with concrete values through plain Python "
              "and through pinned proxies must agree; every counterexample replayed with ordinary literals on the "
              "unmodified package). Bounded: expression depth, concrete string/container leaves, exponents/shifts/bit "
@@ -79,10 +83,12 @@ CHECKS = {
         category="translation_validation",
         text="The same oracle with T = one rule (every rule named in main.py, read at run time, composed with the "
              "pipeline's own import completion): own before-snippets, every rule on a pool sample, literal-sensitive "
-             "rules on their symbolic-literal families.",
-        design_ref="DESIGN.md section 4 / C02",
-        note="As C01. numpy/pandas/import rules are not exercised (listed in evidence). A (rule, program) pair counts only "
-             "when the rule changes the text.",
+             "rules on their symbolic-literal families, ~330 hand-written closed programs per rule (incl. numpy / pandas rules).",
+        design_ref="DESIGN.md section 4 / C02, 13.1",
+        note="As C01. numpy rules run with the real numpy on object arrays of proxies; pandas rules run against the vendored "
+             "reference shim shims/pandas.py (pandas is not installed; the shim is part of the trusted base of those "
+             "obligations); import rules are not exercised (listed in evidence). A (rule, program) pair counts only when the "
+             "rule changes the text.",
         technique="symbolic translation validation per rule with z3",
     ),
     "C03": dict(
@@ -101,7 +107,9 @@ CHECKS = {
         text="Totality kernels decided symbolically: literal_value raises only ValueError (symbolic leaves), scheduler "
              "offset arithmetic for synthesised insertion positions (symbolic line/column incl. one past the end), "
              "_do_rewrite candidate selection with validity a solver Boolean, loop budgets with a solver-chosen number "
-             "of changing passes; pool obligation 'nothing escapes' over rule patterns at every file position.",
+             "of changing passes; pool obligation 'nothing escapes' over rule patterns at every file position, over programs "
+             "with each physical line opted out in turn, and over a concrete family of extreme constants (ranges of 2**63 "
+             "elements, float overflow, digit limits).",
         design_ref="DESIGN.md section 4 / C04",
         note="Whole-input totality over all strings and termination of the self-recursive text rules are outside.",
         technique="symbolic execution of totality kernels with z3 + pool obligation",
@@ -110,9 +118,12 @@ CHECKS = {
         category="model_checking",
         text="One inductive step instead of histories: on every path of the symbolic-literal run, after the call every "
              "tree handed out by the cached core.parse still dumps like a fresh parse (representation invariant), and a "
-             "second / third call (after an interposed history incl. a rolled-back transaction) returns the identical text.",
-        design_ref="DESIGN.md section 4 / C05",
-        note="Degenerate symbolic dimension (literals only), stated in evidence; eviction order outside.",
+             "second / third call (after an interposed history incl. a rolled-back transaction) returns the identical text; "
+             "plus a fresh-vs-history differential in two forked children (the text alone / relatives of the text formatted "
+             "first) for state that lives outside the caches.",
+        design_ref="DESIGN.md section 4 / C05, 13.1",
+        note="Degenerate symbolic dimension (literals only), stated in evidence; the fork differential is concrete. Eviction "
+             "order outside.",
         technique="inductive cache-invariant check on symbolic-literal runs",
     ),
     "C06": dict(
@@ -246,7 +257,9 @@ def main():
              "serves_properties": sorted(CHECKS),
              "kind_free_text": "proxy-based symbolic executor over z3 5.1 running the real pyrefact functions "
                                "(instrumented import from /repo's working tree on every run); DFS with decision "
-                               "replay; counterexamples replayed on the unmodified package"},
+                               "replay; counterexamples replayed on the unmodified package; the first unsat claim of "
+                               "every obligation is re-decided by the cvc5 binary (second solver; a disagreement is a "
+                               "harness error, never a verdict)"},
         ],
         "checks": checks,
         "not_applicable": na,
